@@ -737,7 +737,9 @@ def opExit (rec : St → Sx → Res) (st : St) (args : List Sx) : Res :=
 def opAdd (rec : St → Sx → Res) (st : St) (args : List Sx) : Res := do
   let (vs, st1) ← evalList rec st args
   if vs.any isList then
-    pure (.list false (vs.flatMap (fun v => match v with | .list _ items => items | x => [x])), st1)
+    -- `res += item` with a WList item turns the accumulator into a WList (UserList.__radd__)
+    let w := vs.any (fun v => match v with | .list true _ => true | _ => false)
+    pure (.list w (vs.flatMap (fun v => match v with | .list _ items => items | x => [x])), st1)
   else if vs.any isStr then
     match vs.mapM pyStr? with
     | some ss => pure (.str (String.join ss), st1)
